@@ -1,3 +1,4 @@
+import T4V.Proofs.KwArray
 import T4V.Proofs.Expand
 import T4V.Proofs.LatticeArg
 import T4V.Text.DataCard
@@ -210,5 +211,35 @@ theorem lattice_range_needs_two_bounds (r : List Char) (x : Int × Int) (h : LA.
 
 example : LA.parseLattice ["malformed".toList] = .error .noRanges := by rfl
 example : LA.parseLattice ["100,0:4,0:4,0:4,0:4".toList] = .error .tooMany := by rfl
+
+/-- **a FILL array with too few universes is rejected** when the cell options are read (`parse_fill_kw`): index
+ranges with `need` elements, fewer plain numbers than that, then the end of the options -/
+theorem fill_array_too_few_universes_rejected (star : Bool) (kw r : String) (rs us : List String) (need : Int)
+    (hkw : startKeyword kw = .fillFirst star)
+    (hr : contains r ":" = true) (hrs : ∀ x ∈ rs, contains x ":" = true)
+    (hsz : rangesSize (r :: rs) = .ok need)
+    (hus : ∀ u ∈ us, classifyU u = .num ∧ contains u ":" = false)
+    (hlen : (us.length : Int) < need) :
+    parseKeywords (kw :: r :: (rs ++ us)) = .error .arrayCount := by
+  simp [parseKeywords, array_fill_too_short star kw r rs us need hkw hr hrs hsz hus hlen, Except.map]
+
+/-- … while **surplus entries are not rejected there** (the model-level form of findings F17a–c): whatever numbers
+follow the last expected universe are taken as the numeric arguments of the FILL keyword — a transformation number
+when there is one of them, a translation when there are three — since the tokeniser has already dropped the parentheses
+that would tell a transformation from further array entries -/
+theorem fill_array_surplus_is_read_as_transformation (star : Bool) (kw r : String) (rs us extra : List String) (need : Int)
+    (hkw : startKeyword kw = .fillFirst star)
+    (hr : contains r ":" = true) (hrs : ∀ x ∈ rs, contains x ":" = true)
+    (hsz : rangesSize (r :: rs) = .ok need)
+    (hus : ∀ u ∈ us, classifyU u = .num ∧ contains u ":" = false)
+    (hlen : (us.length : Int) = need) (hpos : 0 < need)
+    (hex : ∀ p ∈ extra, numericLead p = true) :
+    groupTokens (kw :: r :: (rs ++ us ++ extra)) = .ok [.fillArr star (r :: rs) us extra] := by
+  unfold groupTokens
+  rw [array_fill_reads star kw r rs us extra need [] hkw hr hrs hsz hus hlen hpos hex]
+  simp [kwFinish]
+
+-- (`kwmodel fill 0:1 0:0 3 4 7` on the driver answers `fill=A0,0:1;0:0,3;4,7`: the hypotheses are met by the tokens the
+-- `kwmodel` stream of C15 draws; the kernel cannot evaluate `String.toNat?` inside `rangesSize`, so no `example` here)
 
 end T4V.C17
